@@ -5,8 +5,8 @@ occupancy, the copied agents point to the copy's cells, and neither side can cha
 
 Model: `Model/CopyOcc.lean` (identities; cells with agent lists, connections and capacities; agents with a cell pointer;
 one record per space + model; copy by identity shift).  `view w s` is what the program reads from space `s`: per cell, in
-enumeration order, its identity, coordinate index, capacity, the agents it lists and its connection targets; per registered
-agent its identity, `unique_id` and the cell it points to.  The theorems are about every world a history of operations can
+enumeration order, its identity, coordinate index, capacity, the agents it lists, its connection targets, its generator and
+its class; per registered agent its identity, `unique_id` and the cell it points to.  The theorems are about every world a history of operations can
 reach (`run init ops`), or assume the two facts `C19_space_reachable` gives for each of them.
 -/
 namespace Mesa.CopyOcc
@@ -37,16 +37,18 @@ theorem C19_space_capacity (ops : List Op) (c k : Nat) (cr : CellRec)
   (reachable ops).2.capOk c cr k hc hk hk0
 
 /-- **Closure, after any history.**  Every pointer of a space stays inside it: each of its cells exists, is connected to
-    cells of the same space only and lists agents registered in the space's model only; each registered agent exists and
-    points to a cell of the same space (or to none). -/
+    cells of the same space only, lists agents registered in the space's model only, uses the space's own generator and (if it
+    has a dynamic class at all) the space's own cell class; each registered agent exists and points to a cell of the same
+    space (or to none). -/
 theorem C19_space_closure (ops : List Op) (s : Nat) (sr : SpaceRec) (hs : (run init ops).spaces s = some sr) :
-    (∀ c ∈ sr.cells, ∃ cr, (run init ops).cells c = some cr ∧ (∀ d ∈ cr.conn, d ∈ sr.cells) ∧ ∀ a ∈ cr.agents, a ∈ sr.reg) ∧
+    (∀ c ∈ sr.cells, ∃ cr, (run init ops).cells c = some cr ∧ (∀ d ∈ cr.conn, d ∈ sr.cells) ∧ (∀ a ∈ cr.agents, a ∈ sr.reg) ∧
+      cr.rnd = s ∧ ∀ k, cr.klass = some k → k = s) ∧
     (∀ a ∈ sr.reg, ∃ ar, (run init ops).agents a = some ar ∧ ∀ c, ar.cell = some c → c ∈ sr.cells) := by
   have hi := (reachable ops).2
   constructor
   · intro c hc
-    obtain ⟨cr, hcr, hconn⟩ := hi.connIn s sr c hs hc
-    exact ⟨cr, hcr, hconn, fun a ha => hi.listed_reg hs hc hcr ha⟩
+    obtain ⟨cr, hcr, hconn, hrnd, hkl⟩ := hi.connIn s sr c hs hc
+    exact ⟨cr, hcr, hconn, fun a ha => hi.listed_reg hs hc hcr ha, hrnd, hkl⟩
   · intro a ha
     obtain ⟨ar, har, _, hcell⟩ := hi.regIn s sr a hs ha
     exact ⟨ar, har, hcell⟩
@@ -65,8 +67,8 @@ theorem C19_space_never_share (ops : List Op) (s s' : Nat) (sr sr' : SpaceRec)
     exact hh.symm.trans hh'
 
 /-- **Faithful.**  The copy shows, cell by cell in the same order, the same coordinate index and capacity, and the same
-    occupancy and connections with every identity shifted to the copy's own objects; agent by agent the same `unique_id`
-    and the shifted cell pointer. -/
+    occupancy, connections, generator and class with every identity shifted to the copy's own objects; agent by agent the
+    same `unique_id` and the shifted cell pointer. -/
 theorem C19_space_copy_faithful (w : World) (s : Nat) (w' : World) (s' : Nat) (hc : copySpace w s = some (w', s')) :
     ∃ cv av, view w s = some (cv, av) ∧
       view w' s' = some (cv.map (shiftCellView w.next), av.map (shiftAgentView w.next)) := by
@@ -74,11 +76,13 @@ theorem C19_space_copy_faithful (w : World) (s : Nat) (w' : World) (s' : Nat) (h
   exact ⟨cv, av, h1, h2⟩
 
 /-- **No reference of the copy leads to an old object.**  Everything the copy shows — its cells, the agents they list, their
-    connection targets, its registered agents and the cells they point to — is an object created by the copy. -/
+    connection targets, their generator and class, its registered agents and the cells they point to — is an object created
+    by the copy. -/
 theorem C19_space_copy_mentions_only_new_objects (w : World) (s : Nat) (w' : World) (s' : Nat)
-    (hc : copySpace w s = some (w', s')) (cv' : List (Nat × Nat × Option Nat × List Nat × List Nat))
+    (hc : copySpace w s = some (w', s')) (cv' : List (Nat × Nat × Option Nat × List Nat × List Nat × Nat × Option Nat))
     (av' : List (Nat × Nat × Option Nat)) (hv : view w' s' = some (cv', av')) :
-    (∀ e ∈ cv', w.next ≤ e.1 ∧ (∀ a ∈ e.2.2.2.1, w.next ≤ a) ∧ ∀ d ∈ e.2.2.2.2, w.next ≤ d) ∧
+    (∀ e ∈ cv', w.next ≤ e.1 ∧ (∀ a ∈ e.2.2.2.1, w.next ≤ a) ∧ (∀ d ∈ e.2.2.2.2.1, w.next ≤ d) ∧
+      w.next ≤ e.2.2.2.2.2.1 ∧ ∀ k, e.2.2.2.2.2.2 = some k → w.next ≤ k) ∧
     (∀ e ∈ av', w.next ≤ e.1 ∧ ∀ c, e.2.2 = some c → w.next ≤ c) := by
   obtain ⟨cv, av, _, _, h2⟩ := copy_view s hc
   rw [h2] at hv
@@ -87,11 +91,17 @@ theorem C19_space_copy_mentions_only_new_objects (w : World) (s : Nat) (w' : Wor
   constructor
   · intro e he
     simp only [List.mem_map] at he
-    obtain ⟨⟨c, i, cap, ags, conn⟩, _, rfl⟩ := he
+    obtain ⟨⟨c, i, cap, ags, conn, rnd, kl⟩, _, rfl⟩ := he
     simp only [shiftCellView, List.mem_map]
-    refine ⟨by omega, ?_, ?_⟩
+    refine ⟨by omega, ?_, ?_, by omega, ?_⟩
     · rintro a ⟨a0, _, rfl⟩; omega
     · rintro d ⟨d0, _, rfl⟩; omega
+    · intro k hk
+      cases kl with
+      | none => simp at hk
+      | some k0 =>
+        simp only [Option.map_some, Option.some.injEq] at hk
+        omega
   · intro e he
     simp only [List.mem_map] at he
     obtain ⟨⟨a, u, c⟩, _, rfl⟩ := he
@@ -140,10 +150,15 @@ def strays (w : World) (s : Nat) : List Nat :=
 
 /-- a small history: a space of three cells in a row with capacity 2, two agents in the middle cell, one unplaced -/
 def demo : World :=
-  run init [.newSpace 3 (some 2) [(0, 1), (1, 0), (1, 2), (2, 1)], .newAgent 0, .newAgent 0, .newAgent 0, .set 4 2, .set 5 2]
+  run init [.newSpace 3 (some 2) true [(0, 1), (1, 0), (1, 2), (2, 1)], .newAgent 0, .newAgent 0, .newAgent 0, .set 4 2, .set 5 2]
 
-example : view demo 0 = some ([(1, 0, some 2, [], [2]), (2, 1, some 2, [4, 5], [1, 3]), (3, 2, some 2, [], [2])],
-    [(4, 1, some 2), (5, 2, some 2), (6, 3, none)]) := by rfl
+example : view demo 0 = some ([(1, 0, some 2, [], [2], 0, some 0), (2, 1, some 2, [4, 5], [1, 3], 0, some 0),
+    (3, 2, some 2, [], [2], 0, some 0)], [(4, 1, some 2), (5, 2, some 2), (6, 3, none)]) := by rfl
+
+/-- the hypotheses of the copy theorems hold for it, and the copy exists -/
+example : WF demo ∧ Inv demo := C19_space_reachable _
+
+example : (copySpace demo 0).isSome = true := by rfl
 
 /-- the world after copying the demo space (`good = false`: the code before S22) -/
 def demoCopy (good : Bool) : World :=
@@ -151,14 +166,14 @@ def demoCopy (good : Bool) : World :=
   | some p => p.1
   | none => demo
 
-example : view (demoCopy true) 7 = some ([(8, 0, some 2, [], [9]), (9, 1, some 2, [11, 12], [8, 10]), (10, 2, some 2, [], [9])],
-    [(11, 1, some 9), (12, 2, some 9), (13, 3, none)]) := by rfl
+example : view (demoCopy true) 7 = some ([(8, 0, some 2, [], [9], 7, some 7), (9, 1, some 2, [11, 12], [8, 10], 7, some 7),
+    (10, 2, some 2, [], [9], 7, some 7)], [(11, 1, some 9), (12, 2, some 9), (13, 3, none)]) := by rfl
 
 /-- **The code before S22 violates the property**: the same cells, capacities, occupancy and connections come back, but
     the copied agents point to cells (16) that are not cells of the copied space — while the repaired copy has no such agent. -/
 theorem C19_space_ghost_copy_points_outside :
-    view (demoCopy false) 7 = some ([(8, 0, some 2, [], [9]), (9, 1, some 2, [11, 12], [8, 10]), (10, 2, some 2, [], [9])],
-      [(11, 1, some 16), (12, 2, some 16), (13, 3, none)]) ∧
+    view (demoCopy false) 7 = some ([(8, 0, some 2, [], [9], 7, some 7), (9, 1, some 2, [11, 12], [8, 10], 7, some 7),
+      (10, 2, some 2, [], [9], 7, some 7)], [(11, 1, some 16), (12, 2, some 16), (13, 3, none)]) ∧
     strays (demoCopy false) 7 = [11, 12] ∧ strays (demoCopy true) 7 = [] :=
   ⟨by rfl, by decide, by decide⟩
 
@@ -220,11 +235,12 @@ example : WritesOnly (fun x => x < demo.next) (demoCopy true) [.set 6 2, .set 4 
   decide
 
 example : view (run (demoCopy true) [.set 11 10, .unset 12, .newAgent 7]) 7 =
-    some ([(8, 0, some 2, [], [9]), (9, 1, some 2, [], [8, 10]), (10, 2, some 2, [11], [9])],
+    some ([(8, 0, some 2, [], [9], 7, some 7), (9, 1, some 2, [], [8, 10], 7, some 7), (10, 2, some 2, [11], [9], 7, some 7)],
       [(11, 1, some 10), (12, 2, none), (13, 3, none), (14, 1, none)]) := by rfl
 
 example : view (run (demoCopy true) [.set 6 2, .set 4 1, .remove 5]) 0 =
-    some ([(1, 0, some 2, [4], [2]), (2, 1, some 2, [], [1, 3]), (3, 2, some 2, [], [2])], [(4, 1, some 1), (6, 3, none)]) := by
+    some ([(1, 0, some 2, [4], [2], 0, some 0), (2, 1, some 2, [], [1, 3], 0, some 0), (3, 2, some 2, [], [2], 0, some 0)],
+      [(4, 1, some 1), (6, 3, none)]) := by
   rfl
 
 end Mesa.CopyOcc
